@@ -39,6 +39,13 @@ META = {
         "(C07_cut_inside_z) or ValueError; 27..46 always ValueError; HETATM 17..26 ValueError; shorter: fallback or "
         "ValueError. (4) Kept: C07_ingest_complete/atom_fields/later_models_ignored/drop_water_iff under the old "
         "column guard G1, the four unconditional invariance theorems, regressions of F3..F8. "
+        "(5) File layer: chunks_of_bytes = Python's universal-newline splitting of the decoded file; "
+        "C07_line_endings_irrelevant: for ANY line bodies and ANY two assignments of LF / CRLF / lone CR to the lines "
+        "(and an unterminated last line) ingest is the same - a CR-only file reads like the LF file. Tied by writing "
+        "generated texts to real files in binary mode in every terminator style and reading them through "
+        "io.get_molecule. C07_bom_irrelevant: a leading UTF-8 byte order mark is not text (d3864ae, was C07-F9). The "
+        "side condition of the terminator theorem (no lone CR directly before an LF) holds for every file without "
+        "EMPTY lines (C07_line_endings_side_condition); the empty-line corner is not folded into the theorem. "
         "NOT proved: G2 stays a guard (raw-column identity cannot express TER-segment chains; covered by the "
         "segment-aware oracle); that the real other-record parsers raise only KeyError/ValueError/IndexError is checked "
         "each run, not proved; text of exceptions; non-ASCII input."
@@ -78,6 +85,11 @@ THEOREMS = [
     "C07_cut_inside_z",
     "C07_cut_hetatm_short",
     "C07_nonvacuous_all_lines",
+    "C07_line_endings_irrelevant",
+    "C07_line_endings_nonvacuous",
+    "C07_line_endings_side_condition",
+    "C07_bom_irrelevant",
+    "C07_bom_regression",
 ]
 ALLOWED_AXIOMS = []
 
@@ -158,14 +170,18 @@ def fnum(x):
     return repr(float(x))
 
 
-def impl_ingest(text, dropw=False, via_file=None):
+def impl_ingest(text, dropw=False, via_file=None, file_bytes=None):
     """Real code: read_pdb ; [drop_water] ; Biomolecule.  Returns
     ('EXC', class name) or ('OK', [residue tuples])."""
     pdb, pio, pmain, biomolecule, aa, na = repo()
     try:
         if via_file is not None:
-            with open(via_file, "w", newline="") as fh:
-                fh.write(text)
+            if file_bytes is not None:
+                with open(via_file, "wb") as fh:
+                    fh.write(file_bytes)
+            else:
+                with open(via_file, "w", newline="") as fh:
+                    fh.write(text)
             pdblist, _is_cif = pio.get_molecule(str(via_file))
         else:
             pdblist, _errlist = pdb.read_pdb(_io.StringIO(text))
@@ -954,7 +970,7 @@ def alias_ok(resn_tab, resn, raw, got):
     return bool(ent) and ent[1].get(raw) == got
 
 
-def oracle_case(ctx, case, tab):
+def oracle_case(ctx, case, tab, result=None, extra=None):
     """Independent check of one text on the real code. Returns True when the
     case was inside the oracle's domain."""
     text = case["text"]
@@ -978,7 +994,11 @@ def oracle_case(ctx, case, tab):
     if nter + len({d["chain"] for d in first + later if d["chain"]}) >= 62 and any(d["chain"] == "" for d in first + later):
         ctx.count("oracle:outside-domain(>61 TER with blank chains)")
         return False
-    res = impl_ingest(text, False)
+    res = result if result is not None else impl_ingest(text, False)
+    extra = extra or {}
+    if res[0] == "EXC" and res[1] == "RuntimeError" and "Unable to find file" in res[2] and not kept and not sl["raises"]:
+        ctx.count("oracle:file-without-records-RuntimeError")
+        return True
     nontrivial = len(kept) >= 2 and len(case["feats"]) >= 1
     ctx.evaluated(("oracle", tuple(case["feats"]), len(kept), len(later) > 0, bool(sl["raises"]), bool(sl["drops"])), nontrivial or bool(sl["raises"]))
     if any(d.get("fallback") for d in first):
@@ -991,7 +1011,7 @@ def oracle_case(ctx, case, tab):
         ctx.fail(
             {"site": "pdb.read_pdb", "condition": "unreadable-coordinate-line-accepted", "got": res[0] if res[0] == "OK" else res[1]},
             f"coordinate line {sl['raises'][0]} cannot be read (ValueError expected) but the run gave {str(res)[:200]}",
-            {"text": text, "mode": "oracle"},
+            {"text": text, "mode": "oracle", **extra},
         )
         return True
     if res[0] == "EXC" and res[1] == "ValueError" and (sl["drops"] or sl["drops_later"]):
@@ -1002,7 +1022,7 @@ def oracle_case(ctx, case, tab):
         sig = {"site": "read_pdb/Biomolecule.__init__", "condition": "exception-on-readable-file", "exception": res[1]}
         if res[1] in ("IndexError", "AttributeError") and any(rec == "END" for rec, _, _ in ev):
             sig = {"site": "Biomolecule.__init__", "condition": "END-with-empty-residue"}
-        ctx.fail(sig, f"readable file raises {res[1]}: {res[2]}", {"text": text, "mode": "oracle"})
+        ctx.fail(sig, f"readable file raises {res[1]}: {res[2]}", {"text": text, "mode": "oracle", **extra})
         return True
     got = [a for _, atoms in res[1] for a in atoms]
     got_serials = [a[1] for a in got]
@@ -1029,14 +1049,14 @@ def oracle_case(ctx, case, tab):
             ctx.fail(
                 {"site": "pdb.read_pdb", "condition": "coordinate-line-without-coordinates-skipped"},
                 f"ATOM/HETATM line {sl['drops'][0]} ({raw_lines(text)[sl['drops'][0]].strip()[:40]!r}) has no coordinates: it is skipped and the run succeeds",
-                {"text": text, "mode": "oracle"},
+                {"text": text, "mode": "oracle", **extra},
             )
         return True
     sig = diagnose(text, kept, first, later, set(got_serials), sl["bad_models"]) if not ok else {"site": "Biomolecule.__init__", "condition": "field-mismatch"}
     ctx.fail(
         sig,
         f"atoms of Biomolecule != independent column read: expected serials {sorted(exp)[:30]}, got {sorted(got_serials)[:30]}",
-        {"text": text, "mode": "oracle"},
+        {"text": text, "mode": "oracle", **extra},
     )
     return True
 
@@ -1244,6 +1264,99 @@ def tie_numbers(ctx):
 # --------------------------------------------------------------------------
 
 
+UNIV = re.compile(r"\r\n|\r|\n")
+BOM = b"\xef\xbb\xbf"
+FILE_STYLES = ["LF", "CRLF", "CR", "mixed", "CR-no-final-eol", "BOM"]
+
+
+def universal_lines(text):
+    """Python's universal-newline notion of a line: LF, CRLF and a lone CR all end one."""
+    return UNIV.split(text)
+
+
+def file_bytes_of(bodies, style, rng):
+    eols = {"LF": "\n", "CRLF": "\r\n", "CR": "\r"}
+    if style in eols:
+        t = "".join(b + eols[style] for b in bodies)
+    elif style == "mixed":
+        t = "".join(b + rng.choice(["\n", "\r\n", "\r", "\r"]) for b in bodies)
+    elif style == "CR-no-final-eol":
+        t = "\r".join(bodies)
+    else:  # BOM
+        t = "".join(b + "\n" for b in bodies)
+    data = t.encode("utf-8")
+    return (BOM + data) if style == "BOM" else data
+
+
+def file_layer(ctx, cases, tab, header, rng):
+    """The real entry path: bytes on disk -> io.get_molecule(path) -> [drop_water] ->
+    Biomolecule, for every line-terminator style; compared with (a) the run on the LF
+    text, (b) the independent column read of the universal-newline lines of the same
+    bytes, (c) the model on chunks_of_bytes."""
+    d = ctx.scratch_dir()
+    terms, expect = [], []
+    for j, c in enumerate(cases):
+        bodies = universal_lines(c["text"])
+        if bodies and bodies[-1] == "":
+            bodies.pop()
+        if not bodies:
+            continue
+        lf_text = "".join(b + "\n" for b in bodies)
+        base = impl_ingest(lf_text, c["dropw"])
+        styles = ["CR", rng.choice(["mixed", "CR-no-final-eol"]), rng.choice(["LF", "CRLF", "BOM", "mixed"])]
+        for style in styles:
+            data = file_bytes_of(bodies, style, rng)
+            p = d / f"file{j}_{style}.pdb"
+            r = impl_ingest(None, c["dropw"], via_file=p, file_bytes=data)
+            ctx.count("file:" + style)
+            ctx.evaluated(("file", style, tuple(c["feats"])), base[0] == "OK" and len(base[1]) > 0)
+            fcase = {"text": lf_text, "file_latin1": data.decode("latin1"), "dropw": c["dropw"], "style": style}
+            empty_ok = r[0] == "EXC" and r[1] == "RuntimeError" and "Unable to find file" in r[2] and base[0] == "OK" and not base[1]
+            if style == "BOM":
+                r0 = impl_ingest(None, c["dropw"], via_file=p, file_bytes=data[len(BOM):])
+                if not same_atoms(r, r0):
+                    ctx.fail(
+                        {"site": "io.get_pdb_file", "condition": "utf8-bom-hides-first-record"},
+                        f"a UTF-8 byte order mark changes what is read: with BOM {str(r)[:160]} without {str(r0)[:160]}",
+                        {**fcase, "mode": "file-bom"},
+                    )
+            elif not same_atoms(base, r) and not empty_ok:
+                ctx.fail(
+                    {"site": "io.get_pdb_file/get_molecule", "condition": "line-terminator-sensitive", "style": style},
+                    f"file with {style} line terminators != the same lines with LF: LF {str(base)[:160]} file {str(r)[:200]}",
+                    {**fcase, "mode": "file-meta"},
+                )
+            if style != "BOM" and not c["dropw"]:
+                oracle_case(ctx, {"text": lf_text, "feats": list(c["feats"]) + ["file:" + style]}, tab, result=r, extra={"file_latin1": fcase["file_latin1"], "mode": "file-oracle"})
+            if len(terms) < 90:
+                terms.append(f"run_ingest_file TAB {'true' if c['dropw'] else 'false'} {core.coq_string_bytes(data.decode('latin1'))}")
+                expect.append((r, fcase))
+    if not terms:
+        return True
+    try:
+        res = core.run_cases("C07file", header, terms, chunk=45)
+    except core.CoqEvalError as e:
+        ctx.broke("correspondence-broken", "model evaluation failed (file layer)", str(e))
+        return False
+    ok = True
+    for m, (r, fcase) in zip(res, expect):
+        ctx.cov["correspondence_cases"] += 1
+        pm = parse_model_result(m)
+        if r[0] == "EXC" and r[1] == "RuntimeError" and "Unable to find file" in r[2] and pm == ("OK", []):
+            continue  # get_molecule refuses a file without any record; the model has no records either
+        if canon_impl(r) != pm:
+            ctx.cov["correspondence_disagreements"] += 1
+            ok = False
+            if len([b for b in ctx.broken if b["kind"] == "correspondence-broken"]) < 4:
+                ctx.broke(
+                    "correspondence-broken",
+                    "Model.Group.ingest on chunks_of_bytes vs io.get_molecule(file) + Biomolecule.__init__",
+                    f"style {fcase['style']}: impl={str(r)[:300]} model={str(pm)[:300]}",
+                    {**fcase, "mode": "file-correspondence"},
+                )
+    return ok
+
+
 def load_corpus():
     d = core.CORPUS / "C07"
     out = []
@@ -1352,15 +1465,10 @@ def run(ctx):
         if c["stream"] != "malformed":
             metamorphic(ctx, c, ctx.rng)
     ctx.count("oracle:in-domain", indom)
-    # the real entry path (open(), universal newlines, get_molecule) on a few files
-    d = ctx.scratch_dir()
-    for j, c in enumerate([c for c in cases if c["stream"] == "structured"][:25]):
-        p = d / f"f{j}.pdb"
-        a = impl_ingest(c["text"], False)
-        b = impl_ingest(c["text"], False, via_file=p)
-        ctx.evaluated(("get_molecule", j), True)
-        if a[0] == "OK" and a[1] and not same_atoms(a, b):
-            ctx.fail({"site": "io.get_molecule", "condition": "file-path-differs-from-read_pdb"}, f"get_molecule(file) != read_pdb(text): {str(b)[:200]}", {"text": c["text"], "mode": "file"})
+    # the file layer: bytes on disk, every terminator style, through io.get_molecule
+    fl_cases = cases[:ncorpus] + [c for c in cases if c["stream"] == "structured"][: (200 if ctx.thorough else 40)] + [c for c in cases if c["stream"] == "malformed"][: (60 if ctx.thorough else 12)]
+    if not file_layer(ctx, fl_cases, tab, header, ctx.rng):
+        corr_broken = True
     if cases:
         c0 = cases[min(len(cases) - 1, ncorpus + 3)]
         ctx.sample({"text": c0["text"][:1500], "feats": c0["feats"], "impl": str(impl_ingest(c0["text"], c0["dropw"]))[:600]})
@@ -1398,6 +1506,30 @@ def replay(ctx, data):
         print("replay:", "FAILS: " + why if why else "passes")
         return 1 if why else 0
     before = len(ctx.failures) + sum(ctx.known_hits.values())
+    if mode.startswith("file-") and "file_latin1" in case:
+        import random
+
+        c["dropw"] = case.get("dropw", False)
+        data = case["file_latin1"].encode("latin1")
+        p = ctx.scratch_dir() / "replay.pdb"
+        r = impl_ingest(None, c["dropw"], via_file=p, file_bytes=data)
+        base = impl_ingest(case["text"], c["dropw"])
+        if mode == "file-correspondence":
+            header = HEADER0 + coq_deftab(tab)
+            m = core.run_cases("C07replay", header, [f"run_ingest_file TAB {'true' if c['dropw'] else 'false'} {core.coq_string_bytes(case['file_latin1'])}"], chunk=10)
+            bad = canon_impl(r) != parse_model_result(m[0])
+            print("replay:", "FAILS" if bad else "passes")
+            return 1 if bad else 0
+        if mode == "file-bom":
+            r0 = impl_ingest(None, c["dropw"], via_file=p, file_bytes=data[len(BOM):])
+            bad = not same_atoms(r, r0)
+        else:
+            bad = not same_atoms(base, r)
+            if not bad and not c["dropw"]:
+                oracle_case(ctx, c, tab, result=r)
+                bad = len(ctx.failures) + sum(ctx.known_hits.values()) > before
+        print("replay:", "FAILS" if bad else "passes", "|", f"file: {str(r)[:200]}")
+        return 1 if bad else 0
     if mode.startswith("meta") or mode == "file":
         import random
 
